@@ -97,7 +97,17 @@ impl FileHooks for Hooks {
         }
     }
     fn ctime_ms(&self, file: &std::fs::File, real: u64) -> u64 {
-        let ino = file.metadata().map(|m| m.ino()).unwrap_or(0);
+        let meta = file.metadata().ok();
+        let ino = meta.as_ref().map(|m| m.ino()).unwrap_or(0);
+        // The value the module computed must be the file's st_ctime (in ms), whatever
+        // its modification or access times say; only then is it replaced by the
+        // simulated change time.
+        if let Some(m) = &meta {
+            let actual = (m.ctime() as u64).saturating_mul(1000).saturating_add(m.ctime_nsec() as u64 / 1_000_000);
+            if real != actual {
+                CTIME_SOURCE_MISMATCH.store(true, std::sync::atomic::Ordering::Relaxed);
+            }
+        }
         let st = state();
         match st.by_ino.get(&ino).and_then(|s| st.files[*s].as_ref()) {
             Some(f) => f.ctime_ms,
@@ -119,6 +129,7 @@ impl FileHooks for Hooks {
 }
 
 static HOOKS: Hooks = Hooks;
+static CTIME_SOURCE_MISMATCH: std::sync::atomic::AtomicBool = std::sync::atomic::AtomicBool::new(false);
 
 fn register_hooks() {
     static ONCE: std::sync::Once = std::sync::Once::new();
@@ -274,6 +285,10 @@ fn run_history(plan: &Plan, stats: &mut Stats, log: &mut LogHash, vs: &mut Vec<V
                 let dev = DEVICES[(a[1] as usize) % DEVICES.len()];
                 if op.k == "mkfile" || !exists(&h, slot) {
                     let f = std::fs::File::options().read(true).write(true).create(true).truncate(false).open(&h.paths[slot]).expect("harness: cannot create file");
+                    // The modification time says something else than the change time.
+                    let skew = std::time::Duration::from_secs(3_600 * (1 + a[3] % 48));
+                    let mtime = if a[3] % 2 == 0 { std::time::SystemTime::now() + skew } else { std::time::SystemTime::now() - skew };
+                    let _ = f.set_modified(mtime);
                     let ino = f.metadata().expect("harness: stat").ino();
                     let mut st = state();
                     let now = st.server_now(dev);
@@ -441,6 +456,9 @@ fn run_history(plan: &Plan, stats: &mut Stats, log: &mut LogHash, vs: &mut Vec<V
         }
         stats.ops_executed += 1;
         // ---- C19 invariants after every call ---------------------------
+        if CTIME_SOURCE_MISMATCH.swap(false, std::sync::atomic::Ordering::Relaxed) {
+            push_v(vs, "C19", "C19.ctime_source", format!("during {} the module derived a file time that is not the file's change time (st_ctime)", op.k), i);
+        }
         let (after, voucher) = current_base();
         log.u64(after);
         if !voucher_ok(after, voucher) {
@@ -489,7 +507,9 @@ fn c14_op(op: &Op, i: usize, stats: &mut Stats, log: &mut LogHash, vs: &mut Vec<
         let local_ms = special_local(a[0], now_ms);
         let base = special_base(a[1], local_ms);
         let (voucher, valid) = voucher_for(a[2], base);
-        let local = to_primitive(local_ms);
+        // Sub-millisecond digits (never before the epoch, where they would change the millisecond).
+        let sub_ns = if local_ms >= 0 && local_ms < MAX_MS { [0i64, 0, 1, 999_999, 123_456][(a[3] % 5) as usize] } else { 0 };
+        let local = to_primitive(local_ms) + time::Duration::nanoseconds(sub_ns);
         let want = window_ok(local_ms, base, valid);
         let got = VouchedTime::new(local, base, voucher);
         let chk = VouchedTime::check(local, base, voucher);
@@ -695,6 +715,7 @@ pub fn nfs_fixture(n: usize, devs: &[u64], now_ms: i128) -> NfsFixture {
     for i in 0..n {
         let path = dir.join(format!("f{}", i));
         let f = std::fs::File::options().read(true).write(true).create(true).truncate(false).open(&path).expect("harness: cannot create file");
+        let _ = f.set_modified(std::time::SystemTime::now() + std::time::Duration::from_secs(7_200));
         let ino = f.metadata().expect("harness: stat").ino();
         let dev = DEVICES[(devs[i % devs.len()] as usize) % DEVICES.len()];
         let ctime = st.server_now(dev);
